@@ -207,32 +207,41 @@ func topUpPairing(c *Ctx) {
 
 func claimPairing(c *Ctx) {
 	w, r := c.W, c.R
-	fs := funcsWith(c, "stream", func(e ir.Effect) bool { return e.Method == "SendCoinsFromModuleToModule" })
-	r.Floor("functions paying validator fees", len(fs), 1)
-	for _, f := range fs {
-		key := fn(f)
-		var feePay, recvPay *ir.Effect
-		for _, e := range w.EffectsOf(f) {
-			e := e
-			switch e.Method {
-			case "SendCoinsFromModuleToModule":
-				feePay = &e
-			case "SendCoinsFromModuleToAccount":
-				recvPay = &e
-			}
-		}
-		if feePay == nil || recvPay == nil {
-			r.Bad("A3.claim-pairing", key+"|sites", w.Pos(f.Pos()), "the claim step pays the fee collector and the receiver", "a payout site is missing")
+	// the claim step: the function that computes the claim amount (the two payouts and the store of the reduced
+	// deposit may stand in it or in helpers it calls: everything below is asked on its flat view, with the
+	// expressions of helper-level sites lifted to its terms)
+	var fs []*ssa.Function
+	for _, f := range moduleFuncs(c, "stream") {
+		if f.Parent() != nil || !c.Rooted(f) {
 			continue
 		}
-		one := func(e *ir.Effect) *ir.Expr {
-			coins := w.ExprOf(e.Call.Common().Args[3])
+		for _, b := range f.Blocks {
+			for _, in := range b.Instrs {
+				if call, ok := in.(*ssa.Call); ok && calleeIs(w.ExprOf(call), "types.CalculateAmountToClaim") {
+					fs = append(fs, f)
+				}
+			}
+		}
+	}
+	r.Floor("functions computing a claim", len(fs), 1)
+	for _, f := range fs {
+		key := fn(f)
+		one := func(coins *ir.Expr) *ir.Expr {
 			if calleeIs(coins, "types.NewCoins") && len(coins.Args) == 1 && coins.Args[0].Op == "list" && len(coins.Args[0].Args) == 1 {
 				return coins.Args[0].Args[0]
 			}
 			return coins
 		}
-		fee, rcv := one(feePay), one(recvPay)
+		pay := func(method string) []Inst {
+			return instantiate(c, f, func(e ir.Effect) bool { return e.Method == method }, func(e ir.Effect) *ir.Expr { return w.ExprOf(e.Call.Common().Args[3]) })
+		}
+		feePays, recvPays := pay("SendCoinsFromModuleToModule"), pay("SendCoinsFromModuleToAccount")
+		if len(feePays) != 1 || len(recvPays) != 1 {
+			r.Bad("A3.claim-pairing", key+"|sites", w.Pos(f.Pos()), "the claim step pays the fee collector and the receiver, once each", fmt.Sprintf("%d fee payout(s), %d receiver payout(s)", len(feePays), len(recvPays)))
+			continue
+		}
+		feePay, recvPay := feePays[0], recvPays[0]
+		fee, rcv := one(feePay.E), one(recvPay.E)
 		split := func(e *ir.Expr, idx string) *ir.Expr {
 			if e.Op == "res" && e.Name == idx && calleeIs(e.Args[0], "types.CalculateValidatorFee") {
 				return e.Args[0]
@@ -241,7 +250,7 @@ func claimPairing(c *Ctx) {
 		}
 		sf, sr := split(fee, "1"), split(rcv, "0")
 		okSplit := sf != nil && sr != nil && sf.String() == sr.String()
-		r.Require(okSplit, "A3.claim-pairing", key+"|split", pos(c, feePay.Site), "fee and receiver payouts are the two results of one fee-split call", fmt.Sprintf("fee=%s receiver=%s", fee, rcv))
+		r.Require(okSplit, "A3.claim-pairing", key+"|split", pos(c, feePay.Eff.Site), "fee and receiver payouts are the two results of one fee-split call", fmt.Sprintf("fee=%s receiver=%s", fee, rcv))
 		var total *ir.Expr
 		if okSplit && len(sf.Args) == 2 {
 			total = sf.Args[1]
@@ -252,45 +261,47 @@ func claimPairing(c *Ctx) {
 					okRate = true
 				}
 			}
-			r.Require(okRate, "A3.claim-pairing", key+"|rate", pos(c, feePay.Site), "the fee rate is the stored params.ValidatorFee", rate.String())
+			r.Require(okRate, "A3.claim-pairing", key+"|rate", pos(c, feePay.Eff.Site), "the fee rate is the stored params.ValidatorFee", rate.String())
 		}
 		okTotal := total != nil && total.Op == "res" && total.Name == "0" && calleeIs(total.Args[0], "types.CalculateAmountToClaim")
-		r.Require(okTotal, "A3.claim-pairing", key+"|total", pos(c, feePay.Site), "the amount split is the claim total computed from the stored stream", fmt.Sprint(total))
+		r.Require(okTotal, "A3.claim-pairing", key+"|total", pos(c, feePay.Eff.Site), "the amount split is the claim total computed from the stored stream", fmt.Sprint(total))
 		// stored deposit := remaining
-		isSet := callReaching(c, f, func(e ir.Effect) bool { return e.Kind == "StoreWrite" && e.Section == secStreams })
-		sets := findInstrs(f, isSet)
+		isStreamWrite := func(e ir.Effect) bool { return e.Kind == "StoreWrite" && e.Section == secStreams }
+		sets := instantiate(c, f, isStreamWrite, func(e ir.Effect) *ir.Expr { return marshalArg(c, e) })
 		for _, s := range sets {
-			call := s.(ssa.CallInstruction)
-			args := call.Common().Args
-			st := w.ExprOf(args[len(args)-1])
+			st := s.E
 			dep := fieldOfStruct(st, "Deposit")
 			ok := dep != nil && okTotal && dep.Op == "res" && dep.Name == "1" && dep.Args[0].String() == total.Args[0].String()
-			r.Require(ok, "A3.claim-pairing", key+"|deposit:=remaining", pos(c, s), "the stored Deposit is the remaining-deposit result of the same claim computation", fmt.Sprint(dep))
+			r.Require(ok, "A3.claim-pairing", key+"|deposit:=remaining", pos(c, s.Eff.Site), "the stored Deposit is the remaining-deposit result of the same claim computation", fmt.Sprint(dep))
 			if okTotal {
 				ca := total.Args[0].Args
 				okIn := len(ca) == 5 && isBlockTime(ca[0]) && streamFieldX(c, ca[1], "DepositZeroTime") && streamFieldX(c, ca[2], "LastOutflowTime") && streamFieldX(c, ca[3], "Deposit") && streamFieldX(c, ca[4], "FlowRate")
-				r.Require(okIn, "A3.claim-pairing", key+"|inputs", pos(c, s), "the claim is computed from block time and the stored DepositZeroTime, LastOutflowTime, Deposit and FlowRate (in that order)", total.Args[0].String())
+				r.Require(okIn, "A3.claim-pairing", key+"|inputs", pos(c, s.Eff.Site), "the claim is computed from block time and the stored DepositZeroTime, LastOutflowTime, Deposit and FlowRate (in that order)", total.Args[0].String())
 			}
 			lo := fieldOfStruct(st, "LastOutflowTime")
-			r.Require(lo != nil && isBlockTime(lo), "A3.claim-pairing", key+"|last-outflow", pos(c, s), "a claim sets LastOutflowTime to the block time", fmt.Sprint(lo))
+			r.Require(lo != nil && isBlockTime(lo), "A3.claim-pairing", key+"|last-outflow", pos(c, s.Eff.Site), "a claim sets LastOutflowTime to the block time", fmt.Sprint(lo))
 		}
-		bad := w.MustPass(f, isSet, nil)
+		isSet := directSites(c, isStreamWrite)
+		bad := w.FlatMustPassM(f, isSet, nil)
 		r.Require(len(bad) == 0 && len(sets) > 0, "A3.claim-pairing", key+"|must-store", w.Pos(f.Pos()), "every successful claim stores the reduced deposit", fmt.Sprintf("%d success return(s) without the store", len(bad)))
-		// payouts skipped only when the amount is zero
-		for _, p := range []*ir.Effect{feePay, recvPay} {
-			amt := one(p)
-			skip := w.EstablishedEdges(f, func(pr ir.Pred) bool {
-				return !pr.Pol && calleeIs(pr.E, "math.Int).GT") && len(pr.E.Args) == 2 && pr.E.Args[0].Op == "field" && pr.E.Args[0].Name == "Amount" && pr.E.Args[0].Args[0].String() == amt.String() && isZeroInt(pr.E.Args[1])
-			}, 0)
-			site := p.Site
-			bad := w.MustPass(f, func(in ssa.Instruction) bool { return in == site }, skip)
-			r.Require(len(bad) == 0, "A3.claim-pairing", key+"|must-pay|"+p.Method, pos(c, p.Site), "every successful claim performs this payout unless its amount is zero", fmt.Sprintf("%d success return(s) skip it", len(bad)))
-			for _, s := range sets {
-				r.Require(ir.Precedes(f, func(in ssa.Instruction) bool { return in == site }, s, skip), "A3.claim-pairing", key+"|pay<store|"+p.Method, pos(c, s), "the deposit is reduced only after the payout succeeded", "the stream can be stored without the payout")
+		// payouts skipped only when the amount is zero (the test may stand next to the payout, in a helper: the
+		// predicate is matched in each call context, in the claim step's terms)
+		for _, p := range []Inst{feePay, recvPay} {
+			amt := one(p.E)
+			zero := func(pr ir.Pred) bool {
+				return !pr.Pol && calleeIs(pr.E, "math.Int).GT") && len(pr.E.Args) == 2 && pr.E.Args[0].Op == "field" && pr.E.Args[0].Name == "Amount" && pr.E.Args[0].Args[0].String() == amt.String() && isZeroInt(pr.E.Args[1]) ||
+					!pr.Pol && calleeIs(pr.E, "math.Int).IsPositive") && len(pr.E.Args) == 1 && pr.E.Args[0].Op == "field" && pr.E.Args[0].Name == "Amount" && pr.E.Args[0].Args[0].String() == amt.String() ||
+					!pr.Pol && calleeIs(pr.E, "types.Coin).IsPositive") && len(pr.E.Args) == 1 && pr.E.Args[0].String() == amt.String()
 			}
+			site := p.Eff.Site
+			isPay := func(in ssa.Instruction) bool { return in == site }
+			bad := w.FlatMustPassM(f, isPay, zero)
+			r.Require(len(bad) == 0, "A3.claim-pairing", key+"|must-pay|"+p.Eff.Method, pos(c, site), "every successful claim performs this payout unless its amount is zero", fmt.Sprintf("%d success return(s) skip it", len(bad)))
+			r.Require(w.FlatPrecedesM(f, isPay, isSet, zero), "A3.claim-pairing", key+"|pay<store|"+p.Eff.Method, pos(c, site), "the deposit is reduced only after the payout succeeded", "the stream can be stored without the payout")
 		}
 	}
 }
+
 
 func cancelPairing(c *Ctx) {
 	w, r := c.W, c.R
@@ -429,7 +440,7 @@ func C11(c *Ctx) {
 	r.Explanation = "(A3, guarded ordering) whenever the stored deposit is positive, the settlement claim precedes: the store of a new FlowRate, the refund on cancel, and — for an expired stream — the deposit transfer of a top-up; LastOutflowTime is written only by the claim step and at creation, both with the block time (A4); " +
 		"(A2) stream creation is guarded by not(duration < 60) in the handler and in ValidateBasic, with duration computed from the message's deposit and flow rate; " +
 		"(A9, sink-scoped hazard inventory) in every stream function reachable from the stream MsgServer: no floating-point operation or conversion; every int64*int64 and Duration*Duration product and every int64→uint64 conversion of a computed value is an obligation that must be range-guarded. The payout formula itself is numeric and not decided."
-	r.Rules = []string{"A3.settle-before-change", "A3.restart-resets-outflow", "A4.last-outflow-writers", "A2.min-duration", "A7.stream-fields", "A7.elapsed-seconds", "A9.float", "A9.int-mul", "A9.duration-mul", "A9.narrowing"}
+	r.Rules = []string{"A3.settle-before-change", "A3.restart-resets-outflow", "A7.floor-division", "A4.last-outflow-writers", "A2.min-duration", "A7.stream-fields", "A7.elapsed-seconds", "A9.float", "A9.int-mul", "A9.duration-mul", "A9.narrowing"}
 	r.Trusted = []string{"time.Time arithmetic", "sdk.Int arbitrary precision"}
 	r.NotDecided = []string{"min(remaining, rate x seconds) payout formula", "deposit-zero-time formula", "sufficiency of the remaining deposit until the advertised time"}
 
@@ -515,6 +526,17 @@ func C11(c *Ctx) {
 		for k := range notExpiredBoth(f, notExpired) {
 			cut[k] = true
 		}
+		// ... or it is tested positively: DepositZeroTime.After(now) / now.Before(DepositZeroTime) holds
+		for k := range w.EstablishedEdges(f, func(pr ir.Pred) bool {
+			e := pr.E
+			if !pr.Pol || len(e.Args) != 2 {
+				return false
+			}
+			return calleeIs(e, "time.Time).After") && streamFieldX(c, e.Args[0], "DepositZeroTime") && isBlockTime(e.Args[1]) ||
+				calleeIs(e, "time.Time).Before") && isBlockTime(e.Args[0]) && streamFieldX(c, e.Args[1], "DepositZeroTime")
+		}, 0) {
+			cut[k] = true
+		}
 		r.Require(ir.Precedes(f, isClaimIn(f), send.Site, cut), "A3.settle-before-change", "topup-expired|"+fn(f), pos(c, send.Site), "topping up an expired stream with a positive deposit first settles the remainder to the receiver", "the transfer is reachable for an expired, funded stream without settlement")
 	}
 	// cancel: covered structurally in C10 (claim<refund); repeated here as the C11 clause
@@ -530,10 +552,43 @@ func C11(c *Ctx) {
 		}
 	}
 	restartResetsOutflow(c, isClaimIn)
+	floorDivision(c)
 	minDuration(c)
 	streamFields(c)
 	elapsedSeconds(c)
 	streamHazards(c)
+}
+
+// floorDivision (A7.floor-division): durations and amounts of the schedule are floors (deposit-zero time =
+// funding time + floor(deposit / rate)): every decimal division on a stream route truncates. Dec.Quo rounds
+// half to even at 18 decimals (a quotient within 5e-19 of the next integer becomes that integer before the
+// truncation to seconds), QuoRoundUp / RoundInt / Ceil round up: each advertises a zero time the deposit
+// cannot sustain.
+func floorDivision(c *Ctx) {
+	w, r := c.W, c.R
+	n := 0
+	for _, f := range streamScope(c) {
+		for _, b := range f.Blocks {
+			for _, in := range b.Instrs {
+				call, ok := in.(*ssa.Call)
+				if !ok {
+					continue
+				}
+				e := w.ExprOf(call)
+				for _, okAPI := range []string{"LegacyDec).QuoTruncate", "LegacyDec).QuoTruncateMut", "LegacyDec).TruncateInt", "LegacyDec).TruncateInt64", "math.Int).Quo"} {
+					if calleeIs(e, okAPI) {
+						n++
+					}
+				}
+				for _, badAPI := range []string{"LegacyDec).Quo", "LegacyDec).QuoMut", "LegacyDec).QuoRoundUp", "LegacyDec).QuoRoundupMut", "LegacyDec).QuoInt", "LegacyDec).QuoInt64", "LegacyDec).RoundInt", "LegacyDec).RoundInt64", "LegacyDec).Ceil"} {
+					if calleeIs(e, badAPI) && !strings.Contains(e.Name, "Truncate") {
+						r.Bad("A7.floor-division", fn(f)+"|"+badAPI, pos(c, in), "decimal arithmetic on a stream route truncates (floor): QuoTruncate / MulTruncate / TruncateInt", "rounding operation "+e.Name)
+					}
+				}
+			}
+		}
+	}
+	r.Floor("truncating decimal operations in stream scope", n, 2)
 }
 
 // restartResetsOutflow (A3.restart-resets-outflow): whenever a stream's deposit-zero time is recomputed
@@ -806,7 +861,7 @@ func streamHazards(c *Ctx) {
 		}
 	}
 	r.Analysed["float_sites_in_stream_scope"] = nf
-	r.Floor("int64/Duration products in stream scope", nm, 3)
+	r.Floor("int64/Duration products in stream scope", nm, 1)
 	r.Control("A9.float", "fixtures/c11", len(w.FixtureEffects(func(e ir.Effect) bool { return e.Kind == "Float" })) > 0)
 }
 
@@ -890,22 +945,82 @@ func C12(c *Ctx) {
 				n++
 				ord[api]++
 				key := fmt.Sprintf("%s|%s|%d", fn(f), api, ord[api])
+				// 1. discharged by structure, wherever the call stands: a recognised dominating guard of the API's
+				//    kind, or a constant zero amount
+				class := ""
+				for _, kind := range panicGuardKinds[api] {
+					if panicGuard(c, f, call, e, kind) {
+						class = kind
+						break
+					}
+				}
+				if class == "" && (api == "types.NewCoin" || api == "types.NewInt64Coin") && len(e.Args) == 2 && isZeroInt(w.Expand(e.Args[1], 1)) {
+					class = "zero amount"
+				}
+				if class != "" {
+					r.OK("A2.panic-guard", key, pos(c, in), "the call cannot panic here: "+class)
+					continue
+				}
+				// 2. otherwise it must be in the reviewed table (keyed by function, API and ordinal)
 				reason, listed := streamPanicReviewed[key]
-				if !listed {
-					r.Bad("A10.panic-api", key, pos(c, in), "every panicking SDK call on a stream route is guarded or reviewed: "+panicAPIs[api], "unreviewed call "+e.String())
+				if !listed || strings.HasPrefix(reason, "guard:") {
+					detail := "unreviewed call " + e.String()
+					if listed {
+						detail = "the guard (" + reason[6:] + ") is not found on every path to " + e.String()
+					}
+					rule := "A10.panic-api"
+					if listed {
+						rule = "A2.panic-guard"
+					}
+					r.Bad(rule, key, pos(c, in), "every panicking SDK call on a stream route is guarded or reviewed: "+panicAPIs[api], detail)
 					continue
 				}
 				seenReviewed[key] = true
-				if strings.HasPrefix(reason, "guard:") {
-					ok := panicGuard(c, f, call, e, reason[6:])
-					r.Require(ok, "A2.panic-guard", key, pos(c, in), "the call is dominated by its guard ("+reason[6:]+")", "guard not found on every path")
-				} else {
-					r.OK("A10.panic-api", key, pos(c, in), "reviewed: "+reason)
-				}
+				r.OK("A10.panic-api", key, pos(c, in), "reviewed: "+reason)
 			}
 		}
 	}
 	r.Floor("panicking API call sites in stream scope", n, 14)
+}
+
+// the guard kinds that can discharge a call of each panicking API
+var panicGuardKinds = map[string][]string{
+	"types.NewCoins":            {"amount>0"},
+	"types.NewCoin":             {"seconds>=0"},
+	"types.Coin).Sub":           {"deposit>claim"},
+	"types.Coin).Add":           {"same-denom"},
+	"LegacyDec).QuoTruncateMut": {"flowRate>0"},
+	"LegacyDec).QuoTruncate":    {"flowRate>0"},
+	"LegacyDec).Quo":            {"flowRate>0"},
+}
+
+// intCmp normalises a comparison written with sdk.Int methods (a.GT(b), !a.LTE(b), b.LT(a) ...) to
+// (op, a, b) with op one of > >= < <= == != ; ok=false for anything else.
+func intCmp(p ir.Pred) (op string, a, b *ir.Expr, ok bool) {
+	e := p.E
+	if e == nil || e.Op != "call" || len(e.Args) != 2 {
+		return "", nil, nil, false
+	}
+	neg := map[string]string{">": "<=", ">=": "<", "<": ">=", "<=": ">", "==": "!=", "!=": "=="}
+	for suf, o := range map[string]string{"math.Int).GT": ">", "math.Int).GTE": ">=", "math.Int).LT": "<", "math.Int).LTE": "<=", "math.Int).Equal": "=="} {
+		if calleeIs(e, suf) {
+			if !p.Pol {
+				o = neg[o]
+			}
+			return o, e.Args[0], e.Args[1], true
+		}
+	}
+	return "", nil, nil, false
+}
+
+// intCmpIs: the predicate says fx(a) <op> fy(b), in either operand order.
+func intCmpIs(p ir.Pred, op string, fx, fy func(*ir.Expr) bool) bool {
+	o, a, b, ok := intCmp(p)
+	if !ok {
+		return false
+	}
+	mirror := map[string]string{">": "<", ">=": "<=", "<": ">", "<=": ">=", "==": "==", "!=": "!="}
+	return o == op && fx(a) && fy(b) || mirror[o] == op && fx(b) && fy(a)
 }
 
 func panicGuard(c *Ctx, f *ssa.Function, call *ssa.Call, e *ir.Expr, kind string) bool {
@@ -916,10 +1031,15 @@ func panicGuard(c *Ctx, f *ssa.Function, call *ssa.Call, e *ir.Expr, kind string
 			return cmpIs(p, ">", func(a *ir.Expr) bool { return a.Op == "param" }, func(b *ir.Expr) bool { return b.Op == "const" && b.Name == "0" })
 		}, 0)
 	case "deposit>claim":
+		if len(e.Args) != 2 {
+			return false
+		}
+		amountOf := func(coin *ir.Expr) func(*ir.Expr) bool {
+			return func(x *ir.Expr) bool { return x.Op == "field" && x.Name == "Amount" && x.Args[0].String() == coin.String() }
+		}
 		return w.Guarded(f, call, func(p ir.Pred) bool {
-			return p.Pol && calleeIs(p.E, "math.Int).GT") && len(p.E.Args) == 2 && len(e.Args) == 2 &&
-				p.E.Args[0].Op == "field" && p.E.Args[0].Name == "Amount" && p.E.Args[0].Args[0].String() == e.Args[0].String() &&
-				p.E.Args[1].Op == "field" && p.E.Args[1].Name == "Amount" && p.E.Args[1].Args[0].String() == e.Args[1].String()
+			// a > b or a >= b, written with any of the sdk.Int comparison methods, in either polarity / operand order
+			return intCmpIs(p, ">", amountOf(e.Args[0]), amountOf(e.Args[1])) || intCmpIs(p, ">=", amountOf(e.Args[0]), amountOf(e.Args[1]))
 		}, 0)
 	case "same-denom":
 		return w.Guarded(f, call, func(p ir.Pred) bool {
@@ -974,7 +1094,10 @@ func panicGuard(c *Ctx, f *ssa.Function, call *ssa.Call, e *ir.Expr, kind string
 			amt = e.Args[0].Args[0]
 		}
 		return amt != nil && w.Guarded(f, call, func(p ir.Pred) bool {
-			return p.Pol && calleeIs(p.E, "math.Int).GT") && len(p.E.Args) == 2 && p.E.Args[0].Op == "field" && p.E.Args[0].Name == "Amount" && p.E.Args[0].Args[0].String() == amt.String() && isZeroInt(p.E.Args[1])
+			isAmt := func(x *ir.Expr) bool { return x.Op == "field" && x.Name == "Amount" && x.Args[0].String() == amt.String() }
+			return intCmpIs(p, ">", isAmt, isZeroInt) ||
+				p.Pol && calleeIs(p.E, "math.Int).IsPositive") && len(p.E.Args) == 1 && isAmt(p.E.Args[0]) ||
+				p.Pol && calleeIs(p.E, "types.Coin).IsPositive") && len(p.E.Args) == 1 && p.E.Args[0].String() == amt.String()
 		}, 0)
 	}
 	return false
